@@ -190,7 +190,7 @@ func simplify(t *Term) *Term {
 				}
 				return &Term{At: "zero", Typ: t.Typ}
 			}
-			if base.Op == "&" && len(base.A) == 1 { // (&x).F
+			if (base.Op == "&" || base.Op == "deref") && len(base.A) == 1 { // (&x).F, (*p).F
 				base = base.A[0]
 				continue
 			}
